@@ -169,6 +169,9 @@ func Run(req Request, kinds map[string]KindInfo, resps []Response) Verdict {
 					continue
 				}
 				if prev, taken := own(req.ID)[op.Item]; taken {
+					if prev == p {
+						v.DontCare = true // one plugin naming an item twice: the statements are silent
+					}
 					v.Fail, v.FailAt, v.FailKind, v.FailItem, v.FailPrev = true, p, "conflict", op.Item, prev
 					return v
 				}
@@ -208,6 +211,9 @@ func Run(req Request, kinds map[string]KindInfo, resps []Response) Verdict {
 			o := own(u.Target)
 			for _, op := range u.Sets {
 				if prev, taken := o[op.Item]; taken {
+					if prev == p {
+						v.DontCare = true // one plugin naming a field twice: the statements are silent
+					}
 					if u.Ignore {
 						conflict = true
 						break
